@@ -483,6 +483,9 @@ func c09FixedList() []c09Fixed {
 	l = append(l, c09Fixed{"many_lines", "in", func() string {
 		return strings.Repeat("#\n", 70000) + "def b { x = 1 }\nbind b -> struct\nbind b -> struct\nprint 1 + \"late\"\n"
 	}})
+	l = append(l, c09Fixed{"source_beyond_16MiB", "in", func() string {
+		return "var a = 1\n" + strings.Repeat(" ", 1<<24) + "\n\ndef blk { x = a }\nbind blk -> struct\nbind blk -> struct\nprint a + \"s\"\n"
+	}})
 	for _, n := range sizeClasses {
 		n := n
 		l = append(l, c09Fixed{"string_constant_size", "in", func() string {
